@@ -4,6 +4,7 @@ package main
 
 import (
 	"fmt"
+	"os"
 	"go/types"
 	"strings"
 
@@ -325,6 +326,12 @@ func init() {
 				return nil
 			}
 			e.flushPending()
+			if os.Getenv("GOSMT_DEBUG") != "" && c.IsFalse() {
+				fmt.Fprintf(os.Stderr, "  concrete assertion failure %s; decisions=%v\n", label, e.x.prefix)
+				for _, t := range e.threads {
+					fmt.Fprintf(os.Stderr, "    thread %d %s state=%d blockedOn=%s\n", t.id, t.name, t.state, t.blockedOn)
+				}
+			}
 			if e.verdict(label, e.siteOf(th), Not(c)) {
 				e.trace = append(e.trace, "F:"+label)
 				// continue on the side where the assertion holds
@@ -378,6 +385,35 @@ func init() {
 			th.state = tsRunnable
 			th.ready = nil
 			return nil
+		},
+		// vSettle: like vQuiesce, but armed timers fire too (repeatedly) until nothing can happen any more
+		"H.vSettle": func(e *Exec, th *Thread, a []Value) Value {
+			for {
+				th.state = tsBlocked
+				th.blockedOn = "vSettle"
+				th.ready = func() bool {
+					for _, t := range e.threads {
+						if t != th && t.state == tsRunnable {
+							return false
+						}
+						if t != th && t.state == tsBlocked && t.ready != nil && t.ready() {
+							return false
+						}
+					}
+					return true
+				}
+				e.switchFrom(th)
+				th.state = tsRunnable
+				th.ready = nil
+				if !e.fireTimer() {
+					if os.Getenv("GOSMT_DEBUG") != "" {
+						for _, t := range e.threads {
+							fmt.Fprintf(os.Stderr, "  settle: thread %d %s state=%d blockedOn=%s\n", t.id, t.name, t.state, t.blockedOn)
+						}
+					}
+					return nil
+				}
+			}
 		},
 		"H.vThreadsLive": func(e *Exec, th *Thread, a []Value) Value {
 			n := 0
